@@ -152,18 +152,18 @@ func H_evalExpr(op, ka int) {
 }
 
 var c06Bodies = []string{
-	"{$x.y.z}",                  // null/undefined access
-	"{1 % 0}",                   // integer division by zero
-	"{$ij.foo}",                 // missing injected data
-	"{length($x)}",              // wrong argument type
-	"{$x|truncate:'a'}",         // wrong directive argument type
-	"{$x|noSuchDirective}",      // unknown directive
+	"{$x.y.z}",                      // null/undefined access
+	"{1 % 0}",                       // integer division by zero
+	"{$ij.foo}",                     // missing injected data
+	"{length($x)}",                  // wrong argument type
+	"{$x|truncate:'a'}",             // wrong directive argument type
+	"{$x|noSuchDirective}",          // unknown directive
 	"{foreach $i in $x}a{/foreach}", // not a list
-	"{call .nope /}",            // unknown template (fails the data ref check unless called dynamically)
-	"{$x + [1]}",                // no value
-	"{$x|truncate}",             // wrong directive arity
+	"{call .nope /}",                // unknown template (fails the data ref check unless called dynamically)
+	"{$x + [1]}",                    // no value
+	"{$x|truncate}",                 // wrong directive arity
 	"{range(1, 5, 0)|noAutoescape}", // zero step
-	"{'a' < 1}",                 // ordering non-numbers
+	"{'a' < 1}",                     // ordering non-numbers
 }
 
 // H_renderFail: a failing command at call depth d in a two-file bundle where the second file
@@ -192,7 +192,6 @@ func H_renderFail(body, depth int, dup bool) {
 		verifAssert(err != nil, "C06: a failing command rendered without error")
 	}
 }
-
 
 var c06Dirs = []string{"insertWordBreaks", "changeNewlineToBr", "truncate", "id", "noAutoescape", "escapeHtml", "escapeUri", "escapeJsString",
 	"bidiSpanWrap", "bidiUnicodeWrap", "json", "noSuchDirective"}
